@@ -354,6 +354,69 @@ pub fn k5_crash(shape: &[(usize, bool)], l: usize, ms: u64) {
     std::mem::forget(ff2);
 }
 
+// k6: truncate inside/below the head file, then append: the prefix and the new item satisfy the invariant
+pub fn k6_truncate_append(shape: &[(usize, bool)], t: usize, l: usize) {
+    let mut g = state_from(shape);
+    let n = g.n;
+    let mut ff = FreezerFilesBuilder::new(PathBuf::new()).max_file_size(DATA_CAP as u64).enable_compression(false).build().unwrap();
+    ff.preopen().unwrap();
+    let r = ff.truncate(t as u64);
+    assert!(r.is_ok());
+    assert_eq!(ff.number(), t as u64 + 1);
+    let b = sym_bytes(l);
+    let ra = ff.append(t as u64 + 1, &b[..l]);
+    assert!(ra.is_ok());
+    g.len[t] = l;
+    g.bytes[t] = b;
+    assert!(inv(&g, t + 1));
+    // API level read-back of the new item and of an arbitrary kept one
+    let i: u64 = kani::any();
+    kani::assume(i >= 1 && i <= t as u64 + 1);
+    let rr = ff.retrieve(i);
+    assert!(rr.is_ok());
+    let rr = rr.unwrap();
+    assert!(rr.is_some());
+    assert!(vec_is(rr.as_ref().unwrap(), g.len[(i - 1) as usize], &g.bytes[(i - 1) as usize]));
+    kani::cover!(true, "truncate then append");
+    std::mem::forget(rr);
+    std::mem::forget(ff);
+}
+
+// k7: crash at a rollover that left the new head data file partially written (index entry not written), re-open,
+// then append again (rolls over into the stale file): subsequent appends and retrievals work on the prefix
+pub fn k7_crash_reopen_append(shape: &[(usize, bool)], l: usize, ms: u64, l2: usize) {
+    let mut g = state_from(shape);
+    let n = g.n;
+    let mut ff = FreezerFilesBuilder::new(PathBuf::new()).max_file_size(ms).enable_compression(false).build().unwrap();
+    ff.preopen().unwrap();
+    let b = sym_bytes(l);
+    let head_file = if n == 0 { 0 } else { g.file[n - 1] };
+    let r = ff.append(n as u64 + 1, &b[..l]);
+    assert!(r.is_ok());
+    std::mem::forget(ff);
+    ctl::close_all();
+    // data of the new head file survived (any prefix, possibly all), the index entry did not
+    let new_file = head_file as usize + 1;
+    let cd: usize = kani::any();
+    kani::assume(cd <= l);
+    ctl::cut(new_file, cd);
+    ctl::cut(INDEX_INODE, (n + 1) * 12);
+    let ff2 = FreezerFilesBuilder::new(PathBuf::new()).max_file_size(ms).enable_compression(false).build();
+    assert!(ff2.is_ok());
+    let mut ff2 = ff2.unwrap();
+    ff2.preopen().unwrap();
+    assert_eq!(ff2.number(), n as u64 + 1);
+    assert!(all_items_on_disk(&g, n));
+    let b2 = sym_bytes(l2);
+    let ra = ff2.append(n as u64 + 1, &b2[..l2]);
+    assert!(ra.is_ok());
+    g.len[n] = l2;
+    g.bytes[n] = b2;
+    assert!(inv(&g, n + 1));
+    kani::cover!(cd > 0, "stale bytes in the next data file");
+    std::mem::forget(ff2);
+}
+
 include!("gen_c09_quick.rs");
 #[cfg(feature = "thorough")]
 include!("gen_c09_thorough.rs");
